@@ -332,6 +332,8 @@ def cases(draw):
     mode = draw(st.sampled_from(["boundary", "boundary", "boundary", "boundary", "random", "signed", "permuted", "whole"]))
     if draw(st.sampled_from([False] * 15 + [True])):
         mode = "long"
+    elif draw(st.sampled_from([False] * 24 + [True])):
+        mode = "creep"
     if mode == "signed":
         # currents of both signs (a station feeding back): cancellations inside |.| matter
         sched = [[draw(st.one_of(st.just(0.0), st.floats(-64, 64).map(lambda x: round(x, 3)), st.sampled_from([12.0, -12.0, 32.0, -32.0]))) for _ in range(T)] for _ in range(n)]
@@ -355,6 +357,15 @@ def cases(draw):
             perm = list(range(n)) if t == 0 else draw(st.permutations(range(n)))
             for i in range(n):
                 sched[i][t] = base[perm[i]]
+    elif fr is not None and mode == "creep":
+        # a schedule creeping upwards by a few nano-amperes per period for 4 100 periods: it starts
+        # 1.2e-5 A inside limit + tolerance of one constraint and ends 1.3e-5 A outside
+        T = 4100
+        s0, j, g = fr
+        c = ns["constraints"][j]
+        tol = phasor.tolerance(c["limit"], vt, rt)
+        a0, a1 = (c["limit"] + tol - 1.2e-5) / g, (c["limit"] + tol + 1.3e-5) / g
+        sched = [[max(0.0, a0 + (a1 - a0) * t / (T - 1)) * direction[i] for t in range(T)] for i in range(n)]
     elif fr is not None and mode == "long":
         # a multi-day horizon: thousands of benign periods and a few on the frontier, one of
         # them near the end
@@ -374,7 +385,7 @@ def cases(draw):
             sc_ = max(0.0, (c["limit"] + tol + delta) / g)
             for i in range(n):
                 sched[i][t] = sc_ * direction[i]
-    elif fr is None or mode in ("random", "permuted", "long"):
+    elif fr is None or mode in ("random", "permuted", "long", "creep"):
         sched = [[draw(st.one_of(st.just(0.0), st.floats(0, 64).map(lambda x: round(x, 3)))) for _ in range(T)] for _ in range(n)]
     else:
         s0, j, g = fr
